@@ -492,4 +492,66 @@ theorem cone_support (hs : LawfulSqrt sq) (hh r : K) (dir : V3 K) (hh0 : 0 < hh)
 
 example : (0:ℝ) < 3/2 ∧ (0:ℝ) ≤ 1/4 := by norm_num
 
+/-! ## point clouds, convex polyhedra and polygons: first strict maximum over the vertex list -/
+
+/-- **C10 (point cloud / `ConvexPolyhedron`, 3-D)**: for every non-empty point list and every direction,
+`point_cloud_support_point_id` returns a valid index `i`; `point_cloud_support_point`
+(= `ConvexPolyhedron::local_support_point`) returns `pts[i]`; that point belongs to the convex hull of the
+list and maximises `dir·p` over the *whole hull* (not only over the listed points); and `i` is the *first*
+index attaining the maximum (every earlier point is strictly worse) — the tie-break of the code. -/
+theorem cloud_support3 (dir : V3 K) (pts : List (V3 K)) (hne : pts ≠ []) :
+    letI := fieldNum K sq
+    ∃ i p, cloudId3 dir pts = some i ∧ pts[i]? = some p ∧ cloudPoint3 dir pts = some p ∧
+      IsSupport3 sq (hullMem3 pts) dir p ∧
+      (∀ j q, j < i → pts[j]? = some q → dir.dot q < dir.dot p) := by
+  cases pts with
+  | nil => exact absurd rfl hne
+  | cons p0 ps =>
+    have hall : ∀ q ∈ [p0], @V3.dot K (fieldNum K sq) q dir ≤ @V3.dot K (fieldNum K sq) p0 dir := by
+      intro q hq
+      have : q = p0 := by simpa using hq
+      subst this; exact le_refl _
+    obtain ⟨pr, h1, h2, h3⟩ := cloudGo3_spec sq dir ps [p0] 0 (@V3.dot K (fieldNum K sq) p0 dir)
+      ⟨p0, rfl, rfl⟩ hall (by intro j hj; omega)
+    simp only [List.length_cons, List.length_nil, Nat.zero_add, List.singleton_append] at h1 h2 h3
+    refine ⟨_, pr, rfl, h1, ?_, ⟨hull3_of_getElem sq _ _ _ h1, ?_⟩, ?_⟩
+    · simp only [cloudPoint3, cloudId3]; exact h1
+    · intro q hq
+      refine hull3_le sq dir _ _ q hq (fun v hv => ?_)
+      rw [dot_comm3 sq dir v, dot_comm3 sq dir pr]; exact h2 v hv
+    · intro j q hj hq
+      rw [dot_comm3 sq dir q, dot_comm3 sq dir pr]; exact h3 j hj q hq
+
+example : ([⟨1, 0, 0⟩, ⟨0, 1, 0⟩, ⟨1, 0, 0⟩] : List (V3 ℚ)) ≠ [] := by simp
+
+/-- **C10 (`ConvexPolygon`, 2-D)**: the same for `ConvexPolygon::local_support_point`. -/
+theorem cloud_support2 (dir : V2 K) (pts : List (V2 K)) (hne : pts ≠ []) :
+    letI := fieldNum K sq
+    ∃ i p, cloudId2 dir pts = some i ∧ pts[i]? = some p ∧ cloudPoint2 dir pts = some p ∧
+      IsSupport2 sq (hullMem2 pts) dir p ∧
+      (∀ j q, j < i → pts[j]? = some q → dir.dot q < dir.dot p) := by
+  cases pts with
+  | nil => exact absurd rfl hne
+  | cons p0 ps =>
+    have hall : ∀ q ∈ [p0], @V2.dot K (fieldNum K sq) q dir ≤ @V2.dot K (fieldNum K sq) p0 dir := by
+      intro q hq
+      have : q = p0 := by simpa using hq
+      subst this; exact le_refl _
+    obtain ⟨pr, h1, h2, h3⟩ := cloudGo2_spec sq dir ps [p0] 0 (@V2.dot K (fieldNum K sq) p0 dir)
+      ⟨p0, rfl, rfl⟩ hall (by intro j hj; omega)
+    simp only [List.length_cons, List.length_nil, Nat.zero_add, List.singleton_append] at h1 h2 h3
+    refine ⟨_, pr, rfl, h1, ?_, ⟨hull2_of_getElem sq _ _ _ h1, ?_⟩, ?_⟩
+    · simp only [cloudPoint2, cloudId2]; exact h1
+    · intro q hq
+      refine hull2_le sq dir _ _ q hq (fun v hv => ?_)
+      rw [dot_comm2 sq dir v, dot_comm2 sq dir pr]; exact h2 v hv
+    · intro j q hj hq
+      rw [dot_comm2 sq dir q, dot_comm2 sq dir pr]; exact h3 j hj q hq
+
+/-- the only way `point_cloud_support_point_id` fails is the `points[0]` panic on an empty slice -/
+theorem cloud_none_iff (dir : V3 K) (pts : List (V3 K)) :
+    letI := fieldNum K sq
+    cloudId3 dir pts = none ↔ pts = [] := by
+  cases pts <;> simp [cloudId3]
+
 end C10
